@@ -53,6 +53,9 @@ DayClauses(i) ==
   IN
   [ assigned |-> e.ok = 1,
     bracket  |-> e.ok = 1 => (e.tj <= e.j /\ (e.nj < 0 \/ e.j < e.nj)),
+    (* the day a term starts on is one and the same whether the term is asked for its day or for its instant:
+       the day view and the instant view of C06 cut the time line at the same places *)
+    oneday   |-> e.ok = 1 => (e.tij = e.tj /\ e.nij = e.nj),
     index    |-> e.ok = 1 => e.td = e.j - e.tj,
     bound    |-> e.ok = 1 => (e.td >= 0 /\ e.td <= MaxDayIndex),
     same     |-> e.ok = 1 => e.gt = e.ti,
